@@ -6,28 +6,29 @@ package server
 
 // Frames (modifies clauses) are tracked inside this universe of heap maps; everything outside it
 // (byte buffers, boxed scalars, other packages' structs) is forgotten at every modular call.
-//@ universe F_server_Lock_, F_server_LockManager, F_server_LockDB_, F_server_LockQueue_, F_server_LongWaitLock, F_server_MillisecondWaitLock, F_server_FastKeyValue_, F_server_PriorityMutex_, F_server_Aof, F_server_Subscribe, F_server_Publish, F_server_LockData_, F_protocol_LockDBState_, F_protocol_LockCommand_, E_Pserver_, E_LJPserver_, E_int32, E_server_, MH_, MV_
+//@ universe F_server_Lock_, F_server_LockManager, F_server_LockDB_, F_server_LockQueue_, F_server_LongWaitLock, F_server_MillisecondWaitLock, F_server_FastKeyValue_, F_server_PriorityMutex_, F_server_Aof, F_server_Arbiter, F_server_Replication, F_protocol_protobuf_, F_server_Subscribe, F_server_Publish, F_server_LockData_, F_protocol_LockDBState_, F_protocol_LockCommand_, E_Pserver_, E_LJPserver_, E_int32, E_server_, MH_, MV_
 
 // ---- interface contracts (assumed at call sites; every implementation in the repository is checked
 // ---- against the frame by a generated "refine" obligation) ----
 //@ func ServerProtocol.ProcessLockResultCommand
-//@   preserves F_server_Lock_, F_server_LockManager, F_server_LockDB_, F_server_LockQueue_, F_server_LongWaitLock, F_server_MillisecondWaitLock, F_server_FastKeyValue_, F_server_PriorityMutex_, F_server_Aof, F_server_Subscribe, F_server_Publish, F_server_LockData_, F_protocol_LockDBState_, F_protocol_LockCommand_, E_Pserver_, E_LJPserver_, E_int32, E_server_, MH_, MV_
+//@   preserves F_server_Lock_, F_server_LockManager, F_server_LockDB_, F_server_LockQueue_, F_server_LongWaitLock, F_server_MillisecondWaitLock, F_server_FastKeyValue_, F_server_PriorityMutex_, F_server_Aof, F_server_Arbiter, F_server_Replication, F_protocol_protobuf_, F_server_Subscribe, F_server_Publish, F_server_LockData_, F_protocol_LockDBState_, F_protocol_LockCommand_, E_Pserver_, E_LJPserver_, E_int32, E_server_, MH_, MV_
 //@ func ServerProtocol.ProcessLockResultCommandLocked
-//@   preserves F_server_Lock_, F_server_LockManager, F_server_LockDB_, F_server_LockQueue_, F_server_LongWaitLock, F_server_MillisecondWaitLock, F_server_FastKeyValue_, F_server_PriorityMutex_, F_server_Aof, F_server_Subscribe, F_server_Publish, F_server_LockData_, F_protocol_LockDBState_, F_protocol_LockCommand_, E_Pserver_, E_LJPserver_, E_int32, E_server_, MH_, MV_
+//@   preserves F_server_Lock_, F_server_LockManager, F_server_LockDB_, F_server_LockQueue_, F_server_LongWaitLock, F_server_MillisecondWaitLock, F_server_FastKeyValue_, F_server_PriorityMutex_, F_server_Aof, F_server_Arbiter, F_server_Replication, F_protocol_protobuf_, F_server_Subscribe, F_server_Publish, F_server_LockData_, F_protocol_LockDBState_, F_protocol_LockCommand_, E_Pserver_, E_LJPserver_, E_int32, E_server_, MH_, MV_
 //@ func ServerProtocol.FreeLockCommand
-//@   preserves F_server_Lock_, F_server_LockManager, F_server_LockDB_, F_server_LockQueue_, F_server_LongWaitLock, F_server_MillisecondWaitLock, F_server_FastKeyValue_, F_server_PriorityMutex_, F_server_Aof, F_server_Subscribe, F_server_Publish, F_server_LockData_, F_protocol_LockDBState_, F_protocol_LockCommand_, E_Pserver_, E_LJPserver_, E_int32, E_server_, MH_, MV_
+//@   preserves F_server_Lock_, F_server_LockManager, F_server_LockDB_, F_server_LockQueue_, F_server_LongWaitLock, F_server_MillisecondWaitLock, F_server_FastKeyValue_, F_server_PriorityMutex_, F_server_Aof, F_server_Arbiter, F_server_Replication, F_protocol_protobuf_, F_server_Subscribe, F_server_Publish, F_server_LockData_, F_protocol_LockDBState_, F_protocol_LockCommand_, E_Pserver_, E_LJPserver_, E_int32, E_server_, MH_, MV_
 //@   modifies protocol.LockCommand.Data
 //@ func ServerProtocol.FreeLockCommandLocked
-//@   preserves F_server_Lock_, F_server_LockManager, F_server_LockDB_, F_server_LockQueue_, F_server_LongWaitLock, F_server_MillisecondWaitLock, F_server_FastKeyValue_, F_server_PriorityMutex_, F_server_Aof, F_server_Subscribe, F_server_Publish, F_server_LockData_, F_protocol_LockDBState_, F_protocol_LockCommand_, E_Pserver_, E_LJPserver_, E_int32, E_server_, MH_, MV_
+//@   preserves F_server_Lock_, F_server_LockManager, F_server_LockDB_, F_server_LockQueue_, F_server_LongWaitLock, F_server_MillisecondWaitLock, F_server_FastKeyValue_, F_server_PriorityMutex_, F_server_Aof, F_server_Arbiter, F_server_Replication, F_protocol_protobuf_, F_server_Subscribe, F_server_Publish, F_server_LockData_, F_protocol_LockDBState_, F_protocol_LockCommand_, E_Pserver_, E_LJPserver_, E_int32, E_server_, MH_, MV_
 //@   modifies protocol.LockCommand.Data
 //@ func ServerProtocol.GetLockCommand
-//@   preserves F_server_Lock_, F_server_LockManager, F_server_LockDB_, F_server_LockQueue_, F_server_LongWaitLock, F_server_MillisecondWaitLock, F_server_FastKeyValue_, F_server_PriorityMutex_, F_server_Aof, F_server_Subscribe, F_server_Publish, F_server_LockData_, F_protocol_LockDBState_, E_Pserver_, E_LJPserver_, E_int32, E_server_, MH_, MV_
+//@   preserves F_server_Lock_, F_server_LockManager, F_server_LockDB_, F_server_LockQueue_, F_server_LongWaitLock, F_server_MillisecondWaitLock, F_server_FastKeyValue_, F_server_PriorityMutex_, F_server_Aof, F_server_Arbiter, F_server_Replication, F_protocol_protobuf_, F_server_Subscribe, F_server_Publish, F_server_LockData_, F_protocol_LockDBState_, E_Pserver_, E_LJPserver_, E_int32, E_server_, MH_, MV_
 //@ func ServerProtocol.GetLockCommandLocked
-//@   preserves F_server_Lock_, F_server_LockManager, F_server_LockDB_, F_server_LockQueue_, F_server_LongWaitLock, F_server_MillisecondWaitLock, F_server_FastKeyValue_, F_server_PriorityMutex_, F_server_Aof, F_server_Subscribe, F_server_Publish, F_server_LockData_, F_protocol_LockDBState_, E_Pserver_, E_LJPserver_, E_int32, E_server_, MH_, MV_
+//@   preserves F_server_Lock_, F_server_LockManager, F_server_LockDB_, F_server_LockQueue_, F_server_LongWaitLock, F_server_MillisecondWaitLock, F_server_FastKeyValue_, F_server_PriorityMutex_, F_server_Aof, F_server_Arbiter, F_server_Replication, F_protocol_protobuf_, F_server_Subscribe, F_server_Publish, F_server_LockData_, F_protocol_LockDBState_, E_Pserver_, E_LJPserver_, E_int32, E_server_, MH_, MV_
 //@ func ServerProtocol.GetProxy
-//@   preserves F_server_Lock_, F_server_LockManager, F_server_LockDB_, F_server_LockQueue_, F_server_LongWaitLock, F_server_MillisecondWaitLock, F_server_FastKeyValue_, F_server_PriorityMutex_, F_server_Aof, F_server_Subscribe, F_server_Publish, F_server_LockData_, F_protocol_LockDBState_, F_protocol_LockCommand_, E_Pserver_, E_LJPserver_, E_int32, E_server_, MH_, MV_
+//@   ghost lastProxy[ref(self)] = result
+//@   preserves F_server_Lock_, F_server_LockManager, F_server_LockDB_, F_server_LockQueue_, F_server_LongWaitLock, F_server_MillisecondWaitLock, F_server_FastKeyValue_, F_server_PriorityMutex_, F_server_Aof, F_server_Arbiter, F_server_Replication, F_protocol_protobuf_, F_server_Subscribe, F_server_Publish, F_server_LockData_, F_protocol_LockDBState_, F_protocol_LockCommand_, E_Pserver_, E_LJPserver_, E_int32, E_server_, MH_, MV_
 //@ func ServerProtocol.AddProxy
-//@   preserves F_server_Lock_, F_server_LockManager, F_server_LockDB_, F_server_LockQueue_, F_server_LongWaitLock, F_server_MillisecondWaitLock, F_server_FastKeyValue_, F_server_PriorityMutex_, F_server_Aof, F_server_Subscribe, F_server_Publish, F_server_LockData_, F_protocol_LockDBState_, F_protocol_LockCommand_, E_Pserver_, E_LJPserver_, E_int32, E_server_, MH_, MV_
+//@   preserves F_server_Lock_, F_server_LockManager, F_server_LockDB_, F_server_LockQueue_, F_server_LongWaitLock, F_server_MillisecondWaitLock, F_server_FastKeyValue_, F_server_PriorityMutex_, F_server_Aof, F_server_Arbiter, F_server_Replication, F_protocol_protobuf_, F_server_Subscribe, F_server_Publish, F_server_LockData_, F_protocol_LockDBState_, F_protocol_LockCommand_, E_Pserver_, E_LJPserver_, E_int32, E_server_, MH_, MV_
 //@ func ServerProtocol.GetStream
 //@   preserves *
 //@ func ServerProtocol.RemoteAddr
@@ -414,6 +415,7 @@ package server
 //@   at call ProcessLockResultCommand assert C10.lock.refuse: implies(self.status != STATE_LEADER && old(command.Flag)&0x04 == 0, arg2 == protocol.RESULT_STATE_ERROR || (old(command.Flag)&0x08 != 0 && old(command.Timeout) == 0 && arg2 == protocol.RESULT_TIMEOUT && calls(GetOrNewLockManager) == 0))
 //@   at call ProcessLockResultCommand assert C10.lock.nochange: implies(self.status != STATE_LEADER && old(command.Flag)&0x04 == 0 && calls(GetOrNewLockManager) == 1, engineUntouched(lockManager))
 //@   at call RemoveLongExpried assert C06.lock.movekey: arg2 == atsection(currentLock.expriedTime) && atsection(currentLock.longWaitIndex) > 0
+//@   at call ProcessLockResultCommand assert C03.lock.route: implies(calls(UpdateLockedLock) == 1, calls(GetProxy) >= 1 && currentLock.protocol == ghost.lastProxy[ref(serverProtocol)] && currentLock.command == command)
 //@   at call ProcessLockResultCommand assert C17.lock.lcount: implies(calls(GetOrNewLockManager) == 1, arg3 == u16(lockManager.locked))
 //@   ensures C03.lock.atmostone: calls(ProcessLockResultCommand) <= 1 && calls(FreeLockCommand) <= 1
 //@   ensures C03.lock.once: calls(ProcessLockResultCommand) == 1 || calls(AddWaitLock) == 1 || calls(DoAckLock) == 1 || calls(LockDB.Lock) == 1 || (calls(UpdateLockedLock) == 1 && calls(PushLockAof) >= 1) || (calls(AddLock) == 1 && calls(AddTimeOut) + calls(AddMillisecondTimeOut) == 1 && calls(PushLockAof) == 1)
@@ -567,4 +569,78 @@ package server
 //@   requires self != nil
 //@   at call checkTimeExpried assert C06.sweep.range: arg1 <= arg2 && arg2 == now
 //@   at call checkTimeExpried assert C06.sweep.next: self.checkExpriedTime == i64(now + 1)
+//@   modifies all
+
+// =====================================================================================================
+// C12: acceptor state of the election (server/arbiter.go), one handler call at a time under voter.glock
+// =====================================================================================================
+//@ spec func voterMonotone(v) = v.proposalId >= old(v.proposalId) && v.commitId >= old(v.commitId)
+// a proposal is accepted only above everything accepted or committed so far and only while no commit is outstanding
+//@ spec func proposalAccepted(v) = old(v.proposalHost) == "" && v.proposalId > old(v.proposalId) && v.proposalId > old(v.commitId) && v.commitId == old(v.commitId) && v.proposalHost == old(v.proposalHost)
+// a commit is accepted only for exactly the accepted proposal, once
+//@ spec func commitAccepted(v) = v.commitId == old(v.proposalId) && v.commitId > old(v.commitId) && v.proposalId == old(v.proposalId)
+//@ spec func voterUnchanged(v) = v.proposalId == old(v.proposalId) && v.commitId == old(v.commitId) && v.proposalHost == old(v.proposalHost)
+
+//@ func (*ArbiterManager).DoAnnouncement
+//@   trusted starts a goroutine only; the announcement itself is a separate handler
+//@   modifies nothing
+//@ func (*ArbiterManager).GetCurrentAofID
+//@   trusted reads the replication manager's position
+//@   modifies nothing
+
+//@ func (*ArbiterManager).commandHandleProposalCommand
+//@   requires self != nil && self.voter != nil && command != nil && self.voter.glock != nil
+//@   loop#1 invariant voterUnchanged(self.voter) && self.voter == old(self.voter)
+//@   ensures C12.proposal.monotone: voterMonotone(self.voter)
+//@   ensures C12.proposal.accept: voterUnchanged(self.voter) || proposalAccepted(self.voter)
+//@   ensures C12.proposal.ackiff: implies(result0 != nil, (result0.ErrType == "") == (self.voter.proposalId != old(self.voter.proposalId)))
+//@   ensures C12.proposal.value: implies(self.voter.proposalId != old(self.voter.proposalId), self.voter.proposalId == request.ProposalId)
+//@   modifies ArbiterVoter.proposalId
+
+//@ func (*ArbiterManager).commandHandleCommitCommand
+//@   requires self != nil && self.voter != nil && command != nil && self.voter.glock != nil
+//@   loop#1 invariant voterUnchanged(self.voter) && self.voter == old(self.voter)
+//@   ensures C12.commit.monotone: voterMonotone(self.voter)
+//@   ensures C12.commit.accept: voterUnchanged(self.voter) || commitAccepted(self.voter)
+//@   ensures C12.commit.ackiff: implies(result0 != nil, (result0.ErrType == "") == (self.voter.commitId != old(self.voter.commitId)))
+//@   ensures C12.commit.value: implies(self.voter.commitId != old(self.voter.commitId), self.voter.commitId == request.ProposalId && self.voter.proposalHost == request.Host)
+//@   modifies ArbiterVoter.proposalHost, ArbiterVoter.proposalFromHost, ArbiterVoter.commitId
+
+//@ func (*ArbiterMember).DoSelfProposal
+//@   requires self != nil && self.manager != nil && self.manager.voter != nil && self.manager.voter.glock != nil
+//@   loop#1 invariant voterUnchanged(self.manager.voter) && self.manager == old(self.manager) && self.manager.voter == old(self.manager.voter)
+//@   ensures C12.selfproposal.monotone: voterMonotone(self.manager.voter)
+//@   ensures C12.selfproposal.accept: voterUnchanged(self.manager.voter) || (proposalAccepted(self.manager.voter) && self.manager.voter.proposalId == proposalId)
+//@   ensures C12.selfproposal.ackiff: isnil(result1) == (self.manager.voter.proposalId != old(self.manager.voter.proposalId))
+//@   modifies ArbiterVoter.proposalId
+
+//@ func (*ArbiterMember).DoSelfCommit
+//@   requires self != nil && self.manager != nil && self.manager.voter != nil && self.manager.voter.glock != nil
+//@   loop#1 invariant voterUnchanged(self.manager.voter) && self.manager == old(self.manager) && self.manager.voter == old(self.manager.voter)
+//@   ensures C12.selfcommit.monotone: voterMonotone(self.manager.voter)
+//@   ensures C12.selfcommit.accept: voterUnchanged(self.manager.voter) || (commitAccepted(self.manager.voter) && self.manager.voter.commitId == proposalId && self.manager.voter.proposalHost == host)
+//@   ensures C12.selfcommit.ackiff: isnil(result1) == (self.manager.voter.commitId != old(self.manager.voter.commitId))
+//@   modifies ArbiterVoter.proposalHost, ArbiterVoter.proposalFromHost, ArbiterVoter.commitId
+
+//@ func (*ArbiterVoter).DoRequests
+//@   trusted fan-out of requests over the network: returns the successful responses; the member list and the caller's receiver variable are not written
+//@   preserves C_Pserver_ArbiterVoter, F_server_ArbiterManager_members, F_server_ArbiterVoter_manager
+
+// the member proposed is always a data-bearing member of non-zero weight
+//@ func (*ArbiterVoter).DoVote
+//@   requires self != nil && self.manager != nil && self.glock != nil
+//@   loop#1 invariant selectVoteResponse == nil || (selectVoteResponse.Arbiter == 0 && selectVoteResponse.Weight != 0)
+//@   ensures C12.vote.eligible: implies(isnil(result), selectVoteResponse != nil && selectVoteResponse.Arbiter == 0 && selectVoteResponse.Weight != 0 && self.voteHost == selectVoteResponse.Host)
+//@   ensures C12.vote.majority: implies(isnil(result), len(responses) >= len(self.manager.members)/2 + 1)
+//@   modifies all
+
+//@ func (*ArbiterVoter).DoProposal
+//@   requires self != nil && self.manager != nil && self.glock != nil
+//@   ensures C12.proposal.majority: implies(isnil(result), len(responses) >= len(self.manager.members)/2 + 1 && !isReject)
+//@   ensures C12.proposal.number: implies(isnil(result), self.proposalId == self.proposalIndex)
+//@   modifies all
+
+//@ func (*ArbiterVoter).DoCommit
+//@   requires self != nil && self.manager != nil && self.glock != nil && self.manager.ownMember != nil
+//@   ensures C12.commit.majority: implies(isnil(result), len(responses) >= len(self.manager.members)/2 + 1 && self.commitId == self.proposalId)
 //@   modifies all
